@@ -702,7 +702,7 @@ static void build_rt_cases(size_t *c2s_from, size_t *c2s_to, size_t *s2c_from, s
 			/* dense sweep: EVERY pair of small prefix sizes, so that each boundary of the reassembly buffer
 			 * (fragment exactly fills / is one short of / one beyond the space left, first and second growth)
 			 * is met without the harness knowing the growth rule */
-			int dense_set = g_thorough ? (si % 3 == 0 || si + 1 == g_nsets) : (si == 0 || si + 1 == g_nsets);
+			int dense_set = g_thorough ? (si % 16 == 0 || si + 1 == g_nsets) : (si == 0 || si + 1 == g_nsets);
 			if (dense_set) {
 				int amax = g_thorough ? 12 : 8, bmax = g_thorough ? 72 : 40;
 				for (int a = 0; a <= amax; a++)
@@ -1192,7 +1192,7 @@ int main(int argc, char **argv)
 	        "transitions = messages pushed through the real websocket/compression module (both directions); evaluations = transitions + upgrade handshakes checked; "
 	        "distinct_nontrivial = cases in which permessage-deflate was negotiated by the real negotiation code and at least one message was inflated or deflated by the module. "
 	        "Enumeration: (a) levels {1,2,3} x every offer from the parameter product in every parameter order + malformed/duplicate/unknown/5+ parameter offers + all ordered pairs of 13 offers in one header (', ' and ',') or two headers; "
-	        "(b) every accepted parameter set x 7 payloads x every fragmentation into <= 3 fragments with prefix sizes from {1,2,7,64} (+rest, rest may be empty) x 3 consecutive messages per connection, plus a dense sweep over EVERY pair of prefix sizes (first 0..8, second 0..40; thorough 0..12 x 0..72) for the first and last accepted parameter set (thorough: every third), which meets every boundary of the reassembly buffer; "
+	        "(b) every accepted parameter set x 7 payloads x every fragmentation into <= 3 fragments with prefix sizes from {1,2,7,64} (+rest, rest may be empty) x 3 consecutive messages per connection, plus a dense sweep over EVERY pair of prefix sizes (first 0..8, second 0..40; thorough 0..12 x 0..72) for the first and last accepted parameter set (thorough: every 16th and the last), which meets every boundary of the reassembly buffer; "
 	        "(c) every compressed payload of the length bound (also as two fragments for length <= 1) and every single-byte substitution of valid compressed messages");
 	fprintf(f, ",\n  \"bounds\": {\"levels_negotiation\": [1,2,3], \"levels_roundtrip\": %s, \"window_bits_lattice\": %s, \"payloads\": [\"empty\",\"1byte\",\"tiny4\",\"noise100\",\"rep400\",\"mixed500\",\"wide5000\",\"noise65530\",\"rep70000\"], "
 	           "\"fragment_prefix_sizes\": [1,2,7,64], \"max_fragments\": 3, \"messages_per_connection\": %d, \"corrupt_configs\": %s, \"corrupt_max_len\": %d, \"corrupt_substitution_messages\": %s, \"corrupt_peak_limit_bytes\": %zu, \"offers\": %zu, \"accepted_parameter_sets\": %zu},\n",
